@@ -37,3 +37,33 @@ Fixpoint trace_ok (l : list smp) : bool :=
   end.
 
 Definition c16_trace_ok (l : list N) : bool := trace_ok (map dec l).
+
+(* ---------------------------------------------------------------- full-sender-queue scenarios (Model/ShutdownQ.v)
+   The driver fills the sender queue of a real tube (capacity [cap], sampled through the overlay)
+   while the link is blocked, then calls Close and Stop.  The checker runs the model of the code as
+   it is now with that capacity along the same history (Muxer.sender inside a blocked write, [cap]
+   acknowledgements queued and one more dropped; Close; forced close; drain) and compares: the
+   sampled queue length with the model's, and the observed returns (Close, Stop, WaitForClose,
+   r.closed signalled) with the model's final state. *)
+From Hop Require Import ShutdownQ ShutdownQProofs.
+Definition q_is_final (x : qst) : bool :=
+  match cp x, fp x, sp x, rp x with
+  | C_done, F_done, S_done, R_done => tc x && rc x && Nat.eqb (ql x) 0 && negb (pn x)
+  | _, _, _, _ => false
+  end.
+Definition fullq_fill (cap : nat) : list qact := qfill cap ++ [AArr; ARecv; ARecv].
+Definition fullq_rest (cap : nat) : list qact :=
+  [AClose; AClose; AForce; AMux] ++ List.concat (repeat [ASend; ASend] cap) ++ [AForce; AForce; ASend; AForce; AClose; ARecv].
+Definition c16_fullq_ok (c : N * N * list bool) : bool :=
+  let '(cap, qlen, obs) := c in
+  let n := N.to_nat cap in
+  let cfg := mkQC n true true false in
+  match qrun cfg (qinit true) (fullq_fill n) with
+  | Some x =>
+    N.eqb (N.of_nat (ql x)) qlen &&
+    match qrun cfg x (fullq_rest n) with
+    | Some y => q_is_final y && forallb (fun b => b) obs && N.ltb 0%N cap
+    | None => false
+    end
+  | None => false
+  end.
